@@ -18,11 +18,17 @@ use std::collections::{BTreeSet, HashSet};
 #[derive(Clone, Copy, Debug, PartialEq, Eq, Hash, PartialOrd, Ord)]
 enum Op {
     WOpen,
+    /// open(create_diff = true)
+    WOpenDiff,
     WUpd(u8, u8), // name index, value
     WRm(u8),
     WRemoveAll,
     WCommit,
     WCommitKeepNode,
+    /// commit() of a diff-collecting writer while a node handle is still alive:
+    /// the documented `arc_into_inner(diff).unwrap()` panic unwinds out of
+    /// commit(); the writer dies by unwinding = a crash point inside commit
+    WCommitFault,
     WStaleUpd(u8, u8),
     WDrop,
     RAcq(u8),
@@ -37,6 +43,7 @@ const QNAMES: [&str; 6] = ["a", "b.a", "c", "x.a", "y.b.a", "*.a"];
 struct Model {
     committed: Vec<Content>,
     working: Option<Content>,
+    diff_mode: bool,
     stale_node: bool,
     stale_written: bool,
     readers: [Option<usize>; 2],
@@ -84,9 +91,10 @@ fn nodes_of(c: &Content) -> BTreeSet<RelName> {
 
 fn enabled(m: &Model, op: Op, thorough: bool) -> bool {
     match op {
-        Op::WOpen => m.working.is_none(),
+        Op::WOpen | Op::WOpenDiff => m.working.is_none(),
+        Op::WCommitFault => m.working.is_some() && m.diff_mode,
         Op::WUpd(..) | Op::WRm(_) | Op::WRemoveAll | Op::WCommit | Op::WDrop => m.working.is_some(),
-        Op::WCommitKeepNode => thorough && m.working.is_some() && !m.stale_node,
+        Op::WCommitKeepNode => thorough && m.working.is_some() && !m.stale_node && !m.diff_mode, // with a diff this is WCommitFault
         Op::WStaleUpd(..) => m.stale_node,
         Op::RAcq(i) => m.readers[i as usize].is_none(),
         Op::RObs(i) | Op::RRel(i) => m.readers[i as usize].is_some(),
@@ -101,11 +109,25 @@ struct Viol {
 /// Apply `op` to model and real state; check oracles.
 fn step(m: &mut Model, r: &mut Real, op: Op, out: &mut Vec<Viol>) {
     match op {
-        Op::WOpen => {
+        Op::WOpen | Op::WOpenDiff => {
             let w = r.rt.block_on(r.zone.write());
-            let node = r.rt.block_on(w.open(false)).unwrap();
+            let node = r.rt.block_on(w.open(op == Op::WOpenDiff)).unwrap();
             r.writer = Some((w, Some(node)));
             m.working = Some(m.committed.last().unwrap().clone());
+            m.diff_mode = op == Op::WOpenDiff;
+        }
+        Op::WCommitFault => {
+            let (mut w, node) = r.writer.take().unwrap();
+            let rtm = &r.rt;
+            let res = std::panic::catch_unwind(std::panic::AssertUnwindSafe(|| rtm.block_on(w.commit(false)).map(|_| ())));
+            // the writer dies here, by unwinding or (if commit came back) normally
+            drop(w);
+            drop(node);
+            match res {
+                Ok(Ok(())) => m.committed.push(m.working.take().unwrap()), // no fault: an ordinary commit
+                Ok(Err(_)) | Err(_) => m.working = None,                   // commit never happened
+            }
+            m.diff_mode = false;
         }
         Op::WUpd(n, v) => {
             let name = rel(NAMES[n as usize]);
@@ -155,6 +177,7 @@ fn step(m: &mut Model, r: &mut Real, op: Op, out: &mut Vec<Viol>) {
             r.rt.block_on(w.commit(false)).unwrap();
             drop(w);
             m.committed.push(m.working.take().unwrap());
+            m.diff_mode = false;
         }
         Op::WStaleUpd(n, v) => {
             // a write through a node handle obtained before the commit: nothing
@@ -175,6 +198,7 @@ fn step(m: &mut Model, r: &mut Real, op: Op, out: &mut Vec<Viol>) {
             drop(node);
             drop(w);
             m.working = None;
+            m.diff_mode = false;
         }
         Op::RAcq(i) => {
             let rd = r.zone.read();
@@ -249,7 +273,7 @@ fn step(m: &mut Model, r: &mut Real, op: Op, out: &mut Vec<Viol>) {
 fn fresh() -> (Model, Real) {
     let c = initial_content();
     let zone = build_direct(&c, false);
-    let m = Model { committed: vec![c.clone()], working: None, stale_node: false, stale_written: false, readers: [None, None], nodes: nodes_of(&c), reader_nodes: [BTreeSet::new(), BTreeSet::new()] };
+    let m = Model { committed: vec![c.clone()], working: None, diff_mode: false, stale_node: false, stale_written: false, readers: [None, None], nodes: nodes_of(&c), reader_nodes: [BTreeSet::new(), BTreeSet::new()] };
     (m, Real { zone, rt: rt(), writer: None, stale: None, readers: [None, None] })
 }
 
@@ -284,11 +308,11 @@ fn main() {
     let ctx = Ctx::new("C09", "model_checking");
     let stats = Stats::new();
     let thorough = !ctx.quick();
-    let mut ops: Vec<Op> = vec![Op::WOpen, Op::WUpd(0, 2), Op::WUpd(1, 3), Op::WUpd(2, 4), Op::WRm(0), Op::WRemoveAll, Op::WCommit, Op::WDrop, Op::RAcq(0), Op::RObs(0), Op::RRel(0), Op::RAcq(1), Op::RObs(1)];
+    let mut ops: Vec<Op> = vec![Op::WOpen, Op::WOpenDiff, Op::WUpd(0, 2), Op::WUpd(1, 3), Op::WUpd(2, 4), Op::WRm(0), Op::WRemoveAll, Op::WCommit, Op::WCommitFault, Op::WDrop, Op::RAcq(0), Op::RObs(0), Op::RRel(0), Op::RAcq(1), Op::RObs(1)];
     if thorough {
         ops.extend([Op::WUpd(0, 5), Op::WRm(1), Op::WCommitKeepNode, Op::WStaleUpd(0, 7), Op::WStaleUpd(2, 8), Op::RRel(1)]);
     }
-    let depth = if thorough { 8 } else { 7 };
+    let depth = if thorough { 9 } else { 8 };
 
     if let Some(p) = &ctx.replay {
         let v: Value = serde_json::from_str(&std::fs::read_to_string(p).expect("replay")).expect("json");
@@ -368,7 +392,7 @@ fn main() {
             "traces_validated_against_impl": transitions,
             "evaluations": transitions,
             "distinct_nontrivial": stats.distinct_count(),
-            "rule": "BFS over all interleavings (operation granularity) of one writer at a time (open/update/remove/remove_all/commit/drop; thorough: also commit-keeping-the-node and writes through that stale node) and two readers (acquire/observe/release) to the depth bound, every history replayed on a fresh real zone; states deduplicated on (model state, sorted Debug rendering of the real zone incl. version vectors)",
+            "rule": "BFS over all interleavings (operation granularity) of one writer at a time (open with and without diff collection/update/remove/remove_all/commit/commit that unwinds at its documented panic point (diff collected + node handle alive)/drop; thorough: also commit-keeping-the-node and writes through that stale node) and two readers (acquire/observe/release) to the depth bound, every history replayed on a fresh real zone; states deduplicated on (model state, sorted Debug rendering of the real zone incl. version vectors)",
             "exhaustive": true,
             "depth": depth,
             "alphabet": ops.iter().map(|o| format!("{:?}", o)).collect::<Vec<_>>(),
